@@ -48,6 +48,10 @@ def gen(seed, idx, tier):
     sleepy = bool(r.random() < 0.7)
     if sleepy and r.random() < 0.5:
       spec, rejected = scen.pick_model(seed, idx, features={"pile": True, "tiny": False, "plane": True}, size="s", curated_p=0.0)
+      if _rng.gen("c09sap", seed, idx).random() < 0.7:
+        # sweep-and-prune broadphase over a dense pile: more sweep candidates than launched threads, so that one thread walks the work
+        # packages of several worlds (sleeping neighbours first, then the target world)
+        spec["mopt"] = dict(spec.get("mopt") or {}, broadphase=int(_rng.gen("c09sap2", seed, idx).choice([1, 2])))
     spec["opt"]["sleep"] = True
     spec["opt"]["sleep_tolerance"] = float(r.choice([0.05, 0.3, 1.0])) if sleepy else 0.02
   nworld = int(r.choice([2, 3, 3, 4, 5]))
